@@ -17,6 +17,7 @@ from __future__ import annotations
 import asyncio
 import json
 import logging
+import os
 import random
 import shutil
 import tempfile
@@ -183,7 +184,10 @@ class _Base(Family):
         from ..sim import url_upstream as U
 
         self._routers: dict = {}
-        self._docroot = tempfile.mkdtemp(prefix="nv-c17-")
+        # one empty directory shared by all runs and worker processes (pool workers do not run atexit handlers: a directory
+        # per process would be left behind); it is never written to and never removed
+        self._docroot = os.path.join(tempfile.gettempdir(), "nv-c17-docroot")
+        os.makedirs(self._docroot, exist_ok=True)
         self.loop = U.quiet_loop()
 
     def model(self, case):
@@ -806,7 +810,7 @@ import atexit
 def _cleanup():
     for f in FAMILIES:
         d = getattr(f, "_docroot", None)
-        if d:
+        if d and not d.endswith("-docroot"):
             shutil.rmtree(d, ignore_errors=True)
 
 
